@@ -16,7 +16,7 @@ from typing import Any, Dict, List, Optional, Tuple
 
 from .absint import forks_reset as absint_forks_reset
 from . import core
-from .absint import (Budget, CellV, ExcV, GenericList, Interp, ListV, NONE, Seg, State, Unknown, _Unmodelled)
+from .absint import (Budget, CellV, ExcV, GenericList, Interp, ListV, NONE, Seg, State, Unknown, _Unmodelled, opaque_path)
 from .codec import COMPACT, INFO, SER, describe_path, same_or_refuted
 from .lin import Lin, Sym, compare
 from .rules_C06 import Raises, Setup, children_family, const_call
@@ -442,7 +442,9 @@ def check_pair(rec, su: Setup, sh: Shape, r: int, t: int, cell: Lin):
         # resolution and parent of what is written
         outs = interp.run_function(SER, "get_resolution", [val])
         if not (len(outs) == 1 and outs[0].kind == "return" and outs[0].value == Lin(t)):
-            rec.bad("C10.4", f"{tag}: written cells have resolution {[str(o.value) for o in outs]}, not {t}", w2, f"value form {val}")
+            decided = all(o.kind == "return" and isinstance(o.value, Lin) and o.value.is_const() and not opaque_path(o.state) for o in outs)
+            rec.ob("C10.4", f"{tag}: written cells have resolution {[str(o.value) for o in outs][:6]}, not {t}",
+                   core.VIOLATED if decided and outs else core.UNDECIDED, w2, f"value form {val}")
             return
         pos0 += seg.count()
     rec.ok("C10.4", f"{tag}: slots offset .. offset+{want_n - 1} receive the {want_n} descendants in order", w2,
